@@ -14,12 +14,12 @@ RULE = ('event sequences from boot over the C12-regime alphabet with STOP/START 
         'then manual-start and a cooperative peer, a peer close and the cooperative peer again (automatic recovery in force); '
         'a stop repeated while stopped must write nothing; searches from boot and from 6 prefix sessions, close completion also as a late separate event; distinct = distinct abstract world fingerprints x stopped flag')
 ASSUMPTIONS = ['simulated Twisted reactor/connector/transport (verif/shims)', 'REST requests are atomic events between reactor callbacks']
-SHARD_TIMEOUT = {'quick': 240, 'thorough': 1500}
+SHARD_TIMEOUT = {'quick': 600, 'thorough': 1500}
 DEPTH = {'quick': (3, 7), 'thorough': (4, 10)}
 PARTS = {'quick': 7, 'thorough': 8}
 CFGS = {'quick': [{}, {'connect_retry_time': 10}], 'thorough': [{}, {'connect_retry_time': 10}, {'connect_retry_time': 40, 'idle_hold_time': 5, 'hold_time': 9}]}
 WALKS = {'quick': (256, 100), 'thorough': (8000, 300)}
-BUDGET = {'quick': 45, 'thorough': 700}
+BUDGET = {'quick': 300, 'thorough': 700}
 
 # prefix-seeded exploration (states a search from boot reaches only at depth 8+): a session under a pending boot
 # timer, a stop / drop whose close has not completed yet, a restart on top of it
@@ -153,6 +153,9 @@ def floors(m, tier):
         unmet.append('fewer than 100 post-stop events observed')
     if c.get('starts_continued', 0) < 20:
         unmet.append('fewer than 20 start continuations')
+    if tier == 'quick' and m['counters'].get('truncated_shards', 0):
+        # the breadth-first part is meant to complete in the quick tier: a search cut by its time box is not 'held'
+        unmet = list(unmet) + ['%d breadth-first shard(s) were cut by their time box' % m['counters']['truncated_shards']]
     return unmet
 
 
